@@ -196,24 +196,16 @@ def check_score_kernel(db, ctx, path, e_out, e_tab, want_op):
         want_map = sorted(X.lin_str({el0: Fraction(1), '': Fraction(i)}) if i else X.lin_str({el0: Fraction(1)}) for i in range(16))
         want_cnt = sorted(X.lin_str({el0: Fraction(16), '': Fraction(i)}) if i else X.lin_str({el0: Fraction(16)}) for i in range(16))
         got = sorted(cols)
-        itv = L0.iter
+        bo = K.block_offset(db, f, E, H0)
         okmap = False
         if got == want_cnt:
-            okmap = itv[0] == 'range' and norm(itv[1]) == ('k', 0) and common.is_usize_const(itv[2], 'Q')
+            okmap = bo == ('block', 1)
             if not okmap:
                 probs.append('column blocks are 16*block but `block` does not range over 0..C/16')
         elif got != want_map:
             probs.append(f'block stores columns {got[:3]}…, expected offset+0..15')
-        elif itv[0] == 'iter' and isinstance(itv[1], tuple) and itv[1][0] == 'call' and itv[1][1].endswith('Iterator::map'):
-            src, clo = itv[1][2]
-            if src[0] == 'agg' and norm(src[2][0]) == ('k', 0) and common.is_usize_const(src[2][1], 'Q') and clo[0] == 'agg' and clo[1][0] == 'closure':
-                cf = db.fns.get(clo[1][1])
-                ce = common.return_expr_single_path_allow(cf) if cf else None
-                if ce is not None:
-                    l = X.lin(norm(ce))
-                    ks = {k: v for k, v in l.items() if k != ''}
-                    if l.get('', 0) == 0 and list(ks.values()) == [16] or ('arg2' in ''.join(ks) and 'USIZE' in ''.join(ks)):
-                        okmap = True
+        else:
+            okmap = bo == ('offset', 16)
         if not okmap and not probs:
             probs.append('column blocks are not offset = 16*i for i in 0..C/16')
     if probs:
@@ -310,8 +302,9 @@ WRAPPERS = ['lightmotif::pli::platform::avx2::Avx2::score_f32_rows_into_permute'
             'lightmotif::pli::platform::avx2::Avx2::score_u8_rows_into_shuffle', 'lightmotif::pli::platform::sse2::Sse2::score_rows_into']
 
 
-def resize_args_ok(f, R, t):
-    a1, a2 = norm(R.operand(t['args'][1])), norm(R.operand(t['args'][2]))
+def resize_args_ok(f, R, t, bi=None):
+    Rb = R.at(bi) if bi is not None and hasattr(R, 'at') else R
+    a1, a2 = norm(Rb.operand(t['args'][1])), norm(Rb.operand(t['args'][2]))
     return a1, a2
 
 
@@ -325,7 +318,7 @@ def r13(db, ctx):
         full = None
         zero = None
         for bi, t in rs:
-            a1, a2 = resize_args_ok(f, R, t)
+            a1, a2 = resize_args_ok(f, R, t, bi)
             if a1 == ('k', 0) and a2 == ('k', 0):
                 zero = (bi, t)
             else:
